@@ -1,5 +1,5 @@
 (* Properties_C03.v — statements only (C03: incremental parsing is split-independent). *)
-From JC Require Import Base Value TokModel TokFrame TokReset TokChunk TokChunk3.
+From JC Require Import Base Value TokModel TokFrame TokReset TokSim TokSim2 TokChunk TokChunk3.
 Local Open Scope Z_scope.
 
 (* the per-call loop is a fold: running it over a ++ b is running it over a and, if a was
